@@ -378,6 +378,36 @@ func genB1(g *Gen) {
 		}
 		return 1 + g.Intn(3)
 	}
+	// sticky-flag scenarios: one special entry (valid under cofactored rules only but added under a cofactorless preset /
+	// inadmissible / malformed) at the first, a middle or the last position among honest entries, through every add path
+	// (expanded or not, key expansion forced off or not): whatever a later entry does, the verdicts are those of the
+	// single verifications
+	{
+		sid := 7
+		for _, cl := range []string{"torsion.stdlib", "Snonmin", "pklen", "stdlib"} {
+			for pos := 0; pos < 3; pos++ {
+				for path := 0; path < 4; path++ {
+					if g.Full() {
+						break
+					}
+					g.Emit("sticky.new", "B1", "b.new", itoa(sid), "0")
+					if path >= 2 {
+						g.Emit("sticky.force", "B1", "b.force", itoa(sid))
+					}
+					op := []string{"b.add", "b.addx"}[path%2]
+					for i := 0; i < 3; i++ {
+						e := b.entry("honest")
+						if i == pos {
+							e = b.entry(cl)
+						}
+						b.emitAdd("B1", op, sid, e)
+					}
+					g.Emit("sticky."+cl+".only", "B1", "b.only", itoa(sid), "r")
+					g.Emit("sticky."+cl+".verify", "B1", "b.verify", itoa(sid), "r")
+				}
+			}
+		}
+	}
 	id := 0
 	for !g.Full() {
 		id = (id + 1) % 5
